@@ -34,4 +34,12 @@ def reviewed : List String := [
 
 theorem aliasSites_tie : Gen.aliasSites = reviewed := by decide
 
+/-- A goroutine started by a handler outlives the handler's return, i.e. the moment the packet loop reuses its
+    receive buffer: every byte-slice argument of every `go` statement of the library is an evident copy
+    (`dupBytes`, `dupMAC`, `CopyBytes`, …).  Passing `clientID`, `p.CHAddr()` or `p.XId()` as they are to
+    `go h.forceDecline(…)` puts an entry into `Gen.goAliasArgs` and breaks this theorem (the dynamic half —
+    harness/c10 runs the secondary modes on one P and awaits the background senders — then shows the garbled
+    DECLINE frames). -/
+theorem goAliasArgs_tie : Gen.goAliasArgs = [] := by decide
+
 end PV.Props.C10Tie
